@@ -29,7 +29,8 @@ SERIES = ["get_market_prices", "get_mid_prices", "get_last_executed_prices", "ge
           "get_executed_volumes", "get_executed_total_prices", "get_n_buy_orders", "get_n_sell_orders"]
 SCALARS = ["get_market_price", "get_mid_price", "get_last_executed_price", "get_fundamental_price",
            "get_executed_volume", "get_executed_total_price", "get_n_buy_order", "get_n_sell_order", "get_vwap"]
-INDEX_SCALARS = ["get_index", "get_market_index", "get_fundamental_index", "compute_market_index"]
+INDEX_SCALARS = ["get_index", "get_market_index", "get_fundamental_index", "compute_market_index",
+                 "compute_fundamental_index"]
 
 
 def budget(tier):
